@@ -17,23 +17,25 @@ const (
 	sigAllEmptyArray          = "C07/rows-missing/all-on-empty-array"
 	sigInDuplicates           = "C07/rows-duplicated/in-list-duplicates"
 	sigNlikeNull              = "C07/rows-missing/nlike-null"
-	sigJSONPathScanErr        = "C07/error-only-twin/json-path-on-non-object"
+	sigJSONPathScanErr        = "C07/error-differs/json-path-on-non-object"
 	sigOrBranch               = "C07/rows-missing/or-branch-ignored"
 	sigInListOrder            = "C07/order-not-sorted/in-list-order"
 	sigDeleteDeleted          = "C07/panic/delete-of-deleted-document-with-index"
 	sigInUnclosed             = "C07/query-panic/in-iterator-left-open"
 	sigBlobMatcher            = "C07/error-only-indexed/blob-value-matcher"
-	sigRelNullOwner           = "C07/rows-missing/relation-filter-inverted-join-null-relation"
+	sigRelNe                  = "C07/rows-missing/relation-ne-filter-with-index"
 	sigJSONRootOnLeaves       = "C07/rows-missing/json-root-condition-matched-on-leaves"
-	sigCompositeArrayEmpty    = "C07/rows-missing/composite-index-array-null-or-empty"
+	sigCompositeArrayEmpty    = "C07/rows-missing/composite-index-multivalue-field-without-entry"
 	sigInNullUnique           = "C07/rows-missing/in-null-on-unique-index"
-	sigCompositeArrayDup      = "C07/rows-duplicated/composite-index-array-order-only"
+	sigCompositeArrayDup      = "C07/rows-duplicated/composite-index-multivalue-field-order-only"
 	sigInvertedJoinDropsConds = "C07/rows-extra/inverted-join-drops-sibling-conditions"
 	sigShowDeletedOrder       = "C07/order-not-sorted/show-deleted-with-index-order"
+	sigPartialUpdate          = "C07/index-entries/partial-document-update-nulls-untouched-indexed-field"
+	sigPartialUpdatePanic     = "C07/panic/partial-document-update-with-unique-index"
 )
 
 var switchSigs = []string{sigJSONNullPanic, sigAllEmptyArray, sigInDuplicates, sigNlikeNull, sigJSONPathScanErr,
-	sigOrBranch, sigInListOrder, sigDeleteDeleted, sigInUnclosed, sigBlobMatcher, sigRelNullOwner, sigScanOrderLaterKey, sigJSONRootOnLeaves, sigCompositeArrayEmpty, sigCompositeArrayDup, sigInvertedJoinDropsConds, sigInNullUnique, sigShowDeletedOrder}
+	sigOrBranch, sigInListOrder, sigDeleteDeleted, sigInUnclosed, sigBlobMatcher, sigRelNe, sigScanOrderLaterKey, sigJSONRootOnLeaves, sigCompositeArrayEmpty, sigCompositeArrayDup, sigInvertedJoinDropsConds, sigInNullUnique, sigShowDeletedOrder, sigPartialUpdate, sigPartialUpdatePanic}
 
 func pick[T any](t *rapid.T, label string, xs []T) T {
 	return xs[rapid.IntRange(0, len(xs)-1).Draw(t, label)]
@@ -62,7 +64,7 @@ func drawIndexes(t *rapid.T, avoid func(string) bool) []IndexSpec {
 			if seen[f] {
 				continue
 			}
-			if nf > 1 && fdef(f).Arr && (avoid(sigCompositeArrayEmpty) || avoid(sigCompositeArrayDup)) {
+			if nf > 1 && (fdef(f).Arr || f == "j") && (avoid(sigCompositeArrayEmpty) || avoid(sigCompositeArrayDup)) {
 				continue
 			}
 			if f == "bl" && avoid(sigBlobMatcher) {
@@ -173,6 +175,9 @@ func (g *gen) ops() []Op {
 	if !g.avoid(sigDeleteDeleted) {
 		kinds = append(kinds, "redelete")
 	}
+	if !g.avoid(sigPartialUpdate) && !g.avoid(sigPartialUpdatePanic) {
+		kinds = append(kinds, "pupdate", "pupdate")
+	}
 	if g.c.Remote {
 		kinds = append(kinds, "rcreate", "rcreate", "rupdate", "rupdate", "rdelete", "pull", "pull", "push", "push", "push")
 	}
@@ -186,7 +191,7 @@ func (g *gen) ops() []Op {
 		switch kind {
 		case "create", "rcreate":
 			op.Doc = g.doc(true)
-		case "update", "rupdate":
+		case "update", "rupdate", "pupdate":
 			op.N = rapid.IntRange(0, 30).Draw(t, "target")
 			op.Doc = g.doc(false)
 		default:
@@ -410,7 +415,7 @@ func (g *gen) leaf() *F {
 			if leaf.Cmp == "_in" && g.avoid(sigInUnclosed) {
 				leaf.Cmp = "_eq"
 			}
-			if leaf.Cmp == "_ne" && g.avoid(sigRelNullOwner) {
+			if leaf.Cmp == "_ne" && g.avoid(sigRelNe) {
 				leaf.Cmp = "_eq"
 			}
 			if leaf.Cmp == "_in" {
